@@ -40,6 +40,7 @@ type Curve struct {
 	C                  *oted.Curve
 	B                  oted.Pt
 	Complete           bool
+	GetterPrivate      func() error // see the generated adapters
 }
 
 // PresetConsts are curve constants handed to a constructor instead of being read from the library.
